@@ -5,7 +5,14 @@ increasing coordinate vector.
 import OdlModel.Model.Interp
 import Mathlib.Tactic.Ring
 import Mathlib.Tactic.Linarith
+import Mathlib.Tactic.Module
+import Mathlib.Tactic.LinearCombination
+import Mathlib.Algebra.Order.AbsoluteValue.Basic
+import Mathlib.Tactic.FieldSimp
 import Mathlib.Algebra.Order.Field.Basic
+import Mathlib.Algebra.Module.Defs
+import Mathlib.Data.Rat.Defs
+import Mathlib.Algebra.Order.Ring.Rat
 
 namespace OdlModel.Interp
 
@@ -95,5 +102,340 @@ theorem findIndex_inside (c : Nat → K) (n : Nat) (p : K) (h : Incr c n) (hn : 
   exact h3 _ (le_refl _) (by omega)
 
 end
+
+section
+variable {K : Type} [Field K] [LinearOrder K] [IsStrictOrderedRing K]
+variable {V : Type} [AddCommGroup V] [Module K V]
+
+/-! ### The corner loop is a tensor product -/
+
+theorem foldl_cornerTerms (es : List (Edge K)) (w : K) (v : List Nat → V) (a : V) :
+    (cornerTerms es w v).foldl (fun acc t => acc + t.1 • t.2) a = a + w • perAxisEval es v := by
+  induction es generalizing w v a with
+  | nil => simp [cornerTerms, perAxisEval]
+  | cons e es ih =>
+    have h0 : perAxisEval (e :: es) v =
+        (0 + (1 * e.wlo) • perAxisEval es (fun idx => v (e.elo :: idx))) +
+          (1 * e.whi) • perAxisEval es (fun idx => v (e.ehi :: idx)) := by
+      show (cornerTerms (e :: es) 1 v).foldl _ 0 = _
+      rw [cornerTerms, List.foldl_append, ih, ih]
+    rw [cornerTerms, List.foldl_append, ih, ih, h0]
+    module
+
+theorem perAxisEval_nil (v : List Nat → V) : perAxisEval ([] : List (Edge K)) v = v [] := by
+  simp [perAxisEval, cornerTerms]
+
+theorem perAxisEval_cons (e : Edge K) (es : List (Edge K)) (v : List Nat → V) :
+    perAxisEval (e :: es) v =
+      e.wlo • perAxisEval es (fun idx => v (e.elo :: idx)) +
+      e.whi • perAxisEval es (fun idx => v (e.ehi :: idx)) := by
+  show (cornerTerms (e :: es) 1 v).foldl _ 0 = _
+  rw [cornerTerms, List.foldl_append, foldl_cornerTerms, foldl_cornerTerms]
+  module
+
+/-! ### One axis -/
+
+/-- A well-formed grid axis: at least two nodes, strictly increasing coordinates. -/
+structure Axis.Good (a : Axis K) : Prop where
+  two : 2 ≤ a.n
+  incr : Incr a.c a.n
+
+/-- The cell found by `_find_indices` for a point of the hull: `c i ≤ p ≤ c (i+1)`, with the
+left end excluded except at the very first node. -/
+theorem findIndex_cell (c : Nat → K) (n : Nat) (p : K) (h : Incr c n) (hn : 2 ≤ n)
+    (hlo : c 0 ≤ p) (hhi : p ≤ c (n - 1)) :
+    c (findIndex c n p) ≤ p ∧ p ≤ c (findIndex c n p + 1) ∧
+      (p = c (findIndex c n p) → findIndex c n p = 0) := by
+  rcases eq_or_lt_of_le hlo with heq | hlt
+  · have hi := findIndex_low c n p h hn (le_of_eq heq.symm)
+    rw [hi]
+    refine ⟨hlo, ?_, fun _ => rfl⟩
+    have := h 0 1 (by omega) (by omega)
+    rw [← heq]; exact this.le
+  · obtain ⟨h1, h2⟩ := findIndex_inside c n p h hn hlt hhi
+    exact ⟨h1.le, h2, fun he => absurd he (ne_of_gt h1)⟩
+
+theorem linear_edge_inside (a : Axis K) (ha : a.Good) (hs : a.scheme = .linear) (p : K)
+    (hlo : a.c 0 ≤ p) (hhi : p ≤ a.c (a.n - 1)) :
+    ∃ i t, i + 1 < a.n ∧ a.c i ≤ p ∧ p ≤ a.c (i + 1) ∧ 0 ≤ t ∧ t ≤ 1 ∧
+      t * (a.c (i + 1) - a.c i) = p - a.c i ∧ (p = a.c i → i = 0) ∧
+      a.edge p = ⟨1 - t, t, i, i + 1⟩ := by
+  obtain ⟨h1, h2, h3⟩ := findIndex_cell a.c a.n p ha.incr ha.two hlo hhi
+  have hilt := findIndex_lt a.c a.n p ha.two
+  have hd : 0 < a.c (findIndex a.c a.n p + 1) - a.c (findIndex a.c a.n p) := by
+    have := ha.incr (findIndex a.c a.n p) (findIndex a.c a.n p + 1) (by omega) hilt
+    linarith
+  refine ⟨findIndex a.c a.n p, normDist a.c (findIndex a.c a.n p) p, hilt, h1, h2, ?_, ?_, ?_, h3, ?_⟩
+  · exact div_nonneg (by linarith) hd.le
+  · unfold normDist; rw [div_le_one hd]; linarith
+  · unfold normDist; field_simp
+  · have t0 : ¬ normDist a.c (findIndex a.c a.n p) p < 0 :=
+      not_lt.mpr (div_nonneg (by linarith) hd.le)
+    have t1 : ¬ 1 < normDist a.c (findIndex a.c a.n p) p := by
+      unfold normDist; rw [not_lt, div_le_one hd]; linarith
+    simp only [Axis.edge, hs, linearEdge, t0, t1, if_false]
+
+theorem linear_edge_low (a : Axis K) (ha : a.Good) (hs : a.scheme = .linear) (p : K)
+    (hp : p < a.c 0) :
+    a.edge p = ⟨0, (p - a.c 0) / (a.c 1 - a.c 0) + 1, 0, 0⟩ := by
+  have hi := findIndex_low a.c a.n p ha.incr ha.two hp.le
+  have hd : 0 < a.c 1 - a.c 0 := by
+    have := ha.incr 0 1 (by omega) (by have := ha.two; omega); linarith
+  have t0 : (p - a.c 0) / (a.c 1 - a.c 0) < 0 := div_neg_of_neg_of_pos (by linarith) hd
+  simp only [Axis.edge, hs, linearEdge, hi, normDist, Nat.zero_add, t0, if_true]
+
+theorem linear_edge_high (a : Axis K) (ha : a.Good) (hs : a.scheme = .linear) (p : K)
+    (hp : a.c (a.n - 1) < p) :
+    a.edge p = ⟨(1 - (p - a.c (a.n - 2)) / (a.c (a.n - 1) - a.c (a.n - 2))) + 1, 0,
+      a.n - 1, a.n - 1⟩ := by
+  have hi := findIndex_high a.c a.n p ha.incr ha.two hp
+  have e : a.n - 2 + 1 = a.n - 1 := by have := ha.two; omega
+  have hd : 0 < a.c (a.n - 1) - a.c (a.n - 2) := by
+    have := ha.incr (a.n - 2) (a.n - 1) (by have := ha.two; omega) (by have := ha.two; omega)
+    linarith
+  have t1 : 1 < (p - a.c (a.n - 2)) / (a.c (a.n - 1) - a.c (a.n - 2)) := by
+    rw [one_lt_div hd]; linarith
+  have t0 : ¬ (p - a.c (a.n - 2)) / (a.c (a.n - 1) - a.c (a.n - 2)) < 0 := by
+    rw [not_lt]; linarith
+  simp only [Axis.edge, hs, linearEdge, hi, normDist, e, t0, t1, if_true, if_false]
+
+/-- The weights/edges of `_compute_nearest_weights_edge` select exactly the node chosen by the
+index rule of `_NearestInterpolator`, for every point (inside or outside). -/
+theorem nearest_edge_select (a : Axis K) (ha : a.Good) (hs : a.scheme = .nearest) (p : K)
+    (x : Nat → V) :
+    (a.edge p).wlo • x (a.edge p).elo + (a.edge p).whi • x (a.edge p).ehi =
+      x (nearestIndex a.c a.n p) := by
+  have hn := ha.two
+  have hilt := findIndex_lt a.c a.n p ha.two
+  have hd : 0 < a.c (findIndex a.c a.n p + 1) - a.c (findIndex a.c a.n p) := by
+    have := ha.incr (findIndex a.c a.n p) (findIndex a.c a.n p + 1) (by omega) hilt
+    linarith
+  have half : (0 : K) < 1 / 2 := by norm_num
+  have hlow : normDist a.c (findIndex a.c a.n p) p < 0 → findIndex a.c a.n p = 0 := by
+    intro hlo
+    have hp : p < a.c (findIndex a.c a.n p) := by
+      unfold normDist at hlo
+      rw [div_neg_iff] at hlo
+      rcases hlo with ⟨_, h2⟩ | ⟨h1, _⟩
+      · linarith
+      · linarith
+    by_contra hne
+    by_cases hp0 : p ≤ a.c 0
+    · exact hne (findIndex_low a.c a.n p ha.incr ha.two hp0)
+    · push Not at hp0
+      by_cases hp1 : p ≤ a.c (a.n - 1)
+      · have := (findIndex_inside a.c a.n p ha.incr ha.two hp0 hp1).1
+        linarith
+      · push Not at hp1
+        have hi := findIndex_high a.c a.n p ha.incr ha.two hp1
+        have := ha.incr.mono (i := findIndex a.c a.n p) (j := a.n - 1) (by omega) (by omega)
+        linarith
+  have hhigh : 1 < normDist a.c (findIndex a.c a.n p) p → findIndex a.c a.n p + 1 = a.n - 1 := by
+    intro hhi
+    have hp : a.c (findIndex a.c a.n p + 1) < p := by
+      unfold normDist at hhi
+      rw [one_lt_div hd] at hhi; linarith
+    by_contra hne
+    by_cases hp1 : a.c (a.n - 1) < p
+    · have := findIndex_high a.c a.n p ha.incr ha.two hp1; omega
+    · push Not at hp1
+      by_cases hp0 : p ≤ a.c 0
+      · have := ha.incr.mono (i := 0) (j := findIndex a.c a.n p + 1) (by omega) hilt
+        linarith
+      · push Not at hp0
+        have := (findIndex_inside a.c a.n p ha.incr ha.two hp0 hp1).2
+        linarith
+  simp only [Axis.edge, hs, nearestEdge, nearestIndex]
+  generalize findIndex a.c a.n p = i at *
+  generalize normDist a.c i p = nd at *
+  by_cases hlo : nd < 0
+  · have hi := hlow hlo
+    have h2 : nd < 1 / 2 := by linarith
+    simp only [hlo, h2, if_true, hi, zero_smul, one_smul, zero_add]
+  · by_cases hhi : 1 < nd
+    · have hi := hhigh hhi
+      have h2 : ¬ nd < 1 / 2 := by
+        rw [not_lt]; linarith [(by norm_num : (1 : K) / 2 ≤ 1)]
+      simp only [hlo, hhi, h2, if_true, if_false, hi, zero_smul, one_smul, add_zero]
+    · by_cases hh : nd < 1 / 2
+      · simp only [hlo, hhi, hh, if_true, if_false, zero_smul, one_smul, add_zero]
+      · simp only [hlo, hhi, hh, if_false, zero_smul, one_smul, zero_add]
+
+/-! ### Nearest rule, node exactness on one axis, unfolding of the N-d interpolant -/
+
+theorem nearestIndex_closest (c : Nat → K) (n : Nat) (p : K) (h : Incr c n) (hn : 2 ≤ n) :
+    nearestIndex c n p < n ∧
+    ∀ k, k < n → |p - c (nearestIndex c n p)| ≤ |p - c k| ∧
+      (|p - c k| = |p - c (nearestIndex c n p)| → k ≤ nearestIndex c n p) := by
+  have hilt := findIndex_lt c n p hn
+  have hd : 0 < c (findIndex c n p + 1) - c (findIndex c n p) := by
+    have := h (findIndex c n p) (findIndex c n p + 1) (by omega) hilt
+    linarith
+  -- distances to nodes on either side
+  have left : ∀ k, k < n → c k ≤ p → |p - c k| = p - c k := fun k _ hk =>
+    abs_of_nonneg (by linarith)
+  have right : ∀ k, k < n → p ≤ c k → |p - c k| = c k - p := fun k _ hk => by
+    rw [abs_of_nonpos (by linarith)]; ring
+  by_cases hlo : p ≤ c 0
+  · -- below the first node
+    have hi := findIndex_low c n p h hn hlo
+    have hj : nearestIndex c n p = 0 := by
+      simp only [nearestIndex, hi, normDist]
+      rw [if_pos]
+      rw [hi] at hd
+      have : (p - c 0) / (c (0 + 1) - c 0) ≤ 0 := div_nonpos_of_nonpos_of_nonneg (by linarith) hd.le
+      linarith [(by norm_num : (0:K) < 1 / 2)]
+    rw [hj]
+    refine ⟨by omega, fun k hk => ?_⟩
+    have hck : c 0 ≤ c k := h.mono (Nat.zero_le k) hk
+    rw [right 0 (by omega) hlo, right k hk (by linarith)]
+    refine ⟨by linarith, fun heq => ?_⟩
+    by_contra hne
+    have := h 0 k (by omega) hk
+    linarith
+  · push Not at hlo
+    by_cases hhi : c (n - 1) < p
+    · -- above the last node
+      have hi := findIndex_high c n p h hn hhi
+      have hj : nearestIndex c n p = n - 1 := by
+        simp only [nearestIndex, hi, normDist]
+        have e : n - 2 + 1 = n - 1 := by omega
+        rw [hi, e] at hd
+        rw [if_neg, e]
+        rw [e, not_lt, div_le_div_iff₀ (by norm_num) hd]
+        linarith
+      rw [hj]
+      refine ⟨by omega, fun k hk => ?_⟩
+      have hck : c k ≤ c (n - 1) := h.mono (by omega) (by omega)
+      rw [left (n - 1) (by omega) hhi.le, left k hk (by linarith)]
+      exact ⟨by linarith, fun _ => by omega⟩
+    · push Not at hhi
+      obtain ⟨h1, h2⟩ := findIndex_inside c n p h hn hlo hhi
+      obtain ⟨i, hi⟩ : ∃ i, findIndex c n p = i := ⟨_, rfl⟩
+      rw [hi] at h1 h2 hd hilt
+      have hnd : normDist c i p < 1 / 2 ↔ p - c i < c (i + 1) - p := by
+        unfold normDist
+        rw [div_lt_div_iff₀ hd (by norm_num)]
+        constructor <;> intro hh <;> linarith
+      have below : ∀ k, k < n → k ≤ i → |p - c k| = p - c k ∧ p - c i ≤ p - c k := fun k hk hki => by
+        have : c k ≤ c i := h.mono hki (by omega)
+        exact ⟨left k hk (by linarith), by linarith⟩
+      have above : ∀ k, k < n → i + 1 ≤ k → |p - c k| = c k - p ∧ c (i + 1) - p ≤ c k - p :=
+        fun k hk hki => by
+          have : c (i + 1) ≤ c k := h.mono hki hk
+          exact ⟨right k hk (by linarith), by linarith⟩
+      by_cases hlt : normDist c i p < 1 / 2
+      · have hj : nearestIndex c n p = i := by simp only [nearestIndex, hi, hlt, if_true]
+        rw [hj]
+        have hlt' := hnd.mp hlt
+        refine ⟨by omega, fun k hk => ?_⟩
+        rw [(below i (by omega) (le_refl _)).1]
+        by_cases hki : k ≤ i
+        · obtain ⟨e, hle⟩ := below k hk hki
+          rw [e]; exact ⟨hle, fun _ => hki⟩
+        · obtain ⟨e, hle⟩ := above k hk (by omega)
+          rw [e]; exact ⟨by linarith, fun heq => by linarith⟩
+      · have hj : nearestIndex c n p = i + 1 := by simp only [nearestIndex, hi, hlt, if_false]
+        rw [hj]
+        have hge : c (i + 1) - p ≤ p - c i := by
+          by_contra hh; exact hlt (hnd.mpr (by linarith))
+        refine ⟨by omega, fun k hk => ?_⟩
+        rw [(above (i + 1) (by omega) (le_refl _)).1]
+        by_cases hki : k ≤ i
+        · obtain ⟨e, hle⟩ := below k hk hki
+          rw [e]; exact ⟨by linarith, fun _ => by omega⟩
+        · obtain ⟨e, hle⟩ := above k hk (by omega)
+          rw [e]
+          refine ⟨hle, fun heq => ?_⟩
+          by_contra hne
+          have := h (i + 1) k (by omega) hk
+          linarith
+
+
+theorem nearestIndex_node (c : Nat → K) (n : Nat) (h : Incr c n) (hn : 2 ≤ n) (k : Nat) (hk : k < n) :
+    nearestIndex c n (c k) = k := by
+  obtain ⟨hj, hcl⟩ := nearestIndex_closest c n (c k) h hn
+  have h1 := (hcl k hk).1
+  rw [sub_self, abs_zero] at h1
+  have h2 : c k - c (nearestIndex c n (c k)) = 0 := abs_eq_zero.mp (le_antisymm h1 (abs_nonneg _))
+  by_contra hne
+  rcases Nat.lt_or_gt_of_ne hne with hlt | hgt
+  · have := h _ _ hlt hk; linarith
+  · have := h _ _ hgt hj; linarith
+
+omit [LinearOrder K] [IsStrictOrderedRing K] in
+theorem Incr.lt_of_lt {c : Nat → K} {n : Nat} [LinearOrder K] (h : Incr c n) {i k : Nat} (hi : i < n)
+    (hlt : c i < c k) : i < k := by
+  by_contra hne
+  have := h.mono (i := k) (j := i) (by omega) hi
+  exact absurd hlt (not_lt.mpr this)
+
+theorem perAxisInterp_cons (a : Axis K) (as : List (Axis K)) (v : List Nat → V) (x : K)
+    (xs : List K) :
+    perAxisInterp (a :: as) v (x :: xs) =
+      (a.edge x).wlo • perAxisInterp as (fun idx => v ((a.edge x).elo :: idx)) xs +
+      (a.edge x).whi • perAxisInterp as (fun idx => v ((a.edge x).ehi :: idx)) xs := by
+  simp only [perAxisInterp, List.zipWith_cons_cons, perAxisEval_cons]
+
+theorem perAxisInterp_nil (v : List Nat → V) (p : List K) :
+    perAxisInterp ([] : List (Axis K)) v p = v [] := by
+  simp [perAxisInterp, perAxisEval_nil]
+
+/-- one axis, point at node `k`: the two weighted neighbours reduce to node `k` -/
+theorem axis_node (a : Axis K) (ha : a.Good) (k : Nat) (hk : k < a.n) (X : Nat → V) :
+    (a.edge (a.c k)).wlo • X (a.edge (a.c k)).elo + (a.edge (a.c k)).whi • X (a.edge (a.c k)).ehi
+      = X k := by
+  have hn := ha.two
+  have hlo : a.c 0 ≤ a.c k := ha.incr.mono (Nat.zero_le _) hk
+  have hhi : a.c k ≤ a.c (a.n - 1) := ha.incr.mono (by omega) (by omega)
+  cases hs : a.scheme with
+  | linear =>
+    obtain ⟨i, t, hi, h1, h2, _, _, ht, h0, he⟩ := linear_edge_inside a ha hs (a.c k) hlo hhi
+    rw [he]; simp only
+    rcases eq_or_lt_of_le h1 with heq | hlt
+    · have hi0 := h0 heq.symm
+      subst hi0
+      have hk0 : k = 0 := by
+        by_contra hne
+        have := ha.incr 0 k (by omega) hk
+        rw [heq] at this; exact lt_irrefl _ this
+      subst hk0
+      have hd := ha.incr 0 1 (by omega) (by omega)
+      have : t = 0 := by
+        have : t * (a.c (0 + 1) - a.c 0) = 0 := by rw [ht]; ring
+        rcases mul_eq_zero.mp this with h | h
+        · exact h
+        · simp only [Nat.zero_add] at h; linarith
+      subst this; simp
+    · have hik : i < k := ha.incr.lt_of_lt (by omega) hlt
+      have hki : k = i + 1 := by
+        by_contra hne
+        have := ha.incr (i + 1) k (by omega) hk
+        linarith
+      subst hki
+      have hd := ha.incr i (i + 1) (by omega) hk
+      have : t = 1 := by
+        have h3 : (t - 1) * (a.c (i + 1) - a.c i) = 0 := by linear_combination ht
+        rcases mul_eq_zero.mp h3 with h | h
+        · linarith
+        · linarith
+      subst this; simp
+  | nearest =>
+    rw [nearest_edge_select a ha hs]
+    rw [nearestIndex_node a.c a.n ha.incr ha.two k hk]
+end
+
+/-! ### Concrete coordinate vectors for the non-vacuity examples -/
+
+theorem incr_sq (n : Nat) : Incr (fun i => ((i * i : Nat) : ℚ)) n := by
+  intro i j hij _
+  have : i * i < j * j := Nat.mul_self_lt_mul_self hij
+  show ((i * i : Nat) : ℚ) < ((j * j : Nat) : ℚ)
+  exact_mod_cast this
+
+theorem incr_id (n : Nat) : Incr (fun i => (i : ℚ)) n := by
+  intro i j hij _
+  show (i : ℚ) < (j : ℚ)
+  exact_mod_cast hij
 
 end OdlModel.Interp
